@@ -116,7 +116,9 @@ class _FakeBase:
         self._emit({"isShutdown": True})
 
     def _create_termination_observable(self):     # used by the real Engine.restart
-        pass
+        # the first thing the real Engine.restart does for a dead engine - i.e. after ComponentState.restart() tested
+        # engine.isShutdown and before the restart hook / the relaunch: a pre-emption point for "another thread"
+        self.h.preempt("in-restart", self.job.reference)
 
     # --- environment ---
     def env_exit(self, reason):
@@ -230,6 +232,7 @@ class Harness:
         self.nsleep = 0
         self.memoized = set()
         self.in_wakeup = False
+        self.preempted = []                      # (where, component, index of the trace entry of the injected kill)
         self.crash = None
         self.externals = []
         self.shape_name = shape_name
@@ -364,6 +367,10 @@ class Harness:
             def make(orig, name):
                 def wrapped(state, component):
                     ref = component.specification.reference
+                    if name == "postMortemCheck":
+                        # the notification has passed the `finishCalled is False` filter; postMortemCheck takes no lock:
+                        # another thread may run before its body
+                        h.preempt("pm-entry", ref)
                     try:
                         return orig(state, component)
                     finally:
@@ -410,6 +417,9 @@ class Harness:
                     acts.append(("KilledExit", ref))
                 if e.nrun > 0:
                     r = self.outcome(ref, e.nrun)
+                    if r == "Success" and not e.kill_requested and getattr(self.policy, "hold_asleep", False) \
+                            and self.controller._start_sleeping:
+                        continue
                     if not e.job.isRepeat or r != "Success" or e.producers_finished or e.kill_requested:
                         acts.append(("TaskExit", ref))
         return acts
@@ -422,6 +432,15 @@ class Harness:
         else:
             e.env_exit(self.outcome(ref, e.nrun))
         self.step(name, ref)
+
+    def preempt(self, where, ref):
+        """A point inside postMortemCheck (which holds no lock) at which another thread may call into the controller."""
+        p = getattr(self.policy, "pm_kill_p", 0.0)
+        if not p or self.killed or self.phase != "running" or self.in_wakeup:
+            return
+        if self.policy.rnd_env.random() < (p if where == "in-restart" else p / 2.0):
+            self.do_external("kill")
+            self.preempted.append((where, ref, len(self.trace) - 1))
 
     def do_external(self, what):
         """The environment calls into the controller (as elaunch / a signal handler / a watchdog thread would)."""
@@ -559,12 +578,17 @@ class RandomPolicy:
     (task exits / kills) and how eager the controller callbacks are relative to the other rx hops (ctrl_weight)."""
 
     def __init__(self, seed, burst_max=4, env_bias=0.5, ctrl_weight=1.0, eager_internal=False,
-                 kill_p=0.0, sleep_p=0.0, wake_p=0.3, max_sleeps=1):
+                 kill_p=0.0, sleep_p=0.0, wake_p=0.3, max_sleeps=1, hold_asleep=False, pm_kill_p=0.0):
         self.rnd = random.Random(seed)
         # calls into the controller from outside (G02): a separate stream, so that the schedules of the runs without
         # such calls do not depend on these parameters
         self.rnd_env = random.Random(seed * 7919 + 13)
         self.kill_p, self.sleep_p, self.wake_p, self.max_sleeps = kill_p, sleep_p, wake_p, max_sleeps
+        # hold_asleep: tasks that will succeed keep running while the controller sleeps (long-running siblings of a task that
+        # fails meanwhile: the postponed reaction to the failure then still finds something to stop at wake-up)
+        self.hold_asleep = hold_asleep
+        # pm_kill_p: killController() may arrive while postMortemCheck (no lock) is about to restart / restarting an engine
+        self.pm_kill_p = pm_kill_p
         self.burst_max = burst_max
         self.env_bias = env_bias
         self.ctrl_weight = ctrl_weight
